@@ -10,6 +10,7 @@ import traceback
 from common import Ctx, InfraError
 
 MODULES = {f"C{i:02d}": [f"TjdProps.C{i:02d}"] for i in range(1, 21)}
+MODULES["C01"].append("TjdProps.C01Example")
 
 
 def main() -> int:
